@@ -568,6 +568,22 @@ def gen_poetic_line(rng):
         if r < 0.18 and not first:
             text += rng.choice([',', ' ,'])
             continue
+        if r < 0.45 and not first and text.rstrip().endswith('.'):
+            # STRAY suffixes: hyphen or apostrophe parts right after a PERIOD have no word in front of them: each is a word of
+            # its own (hyphen counted, apostrophe not); after a word (even across blanks or a comma) they belong to that word
+            chain = ''
+            for _ in range(rng.randint(1, 3)):
+                if rng.random() < 0.7:
+                    part = ''.join(rng.choice('abcdefgh') for _ in range(rng.randint(1, 5)))
+                    chain += '-' + part
+                    digits.append((1 + len(part)) % 10)
+                else:
+                    suf = rng.choice(["'s", "'re"])
+                    chain += suf
+                    digits.append(len(suf) - 1)
+            text += (' ' if text and not text.endswith(' ') else '') + chain
+            digits.append('stray')          # how stray suffixes group is not fixed by the property: such literals are TIED only
+            continue
         L = rng.choice([1, 2, 3, 4, 5, 6, 7, 8, 9, 10, 10, 11, 13, 20, 21, 30])
         rr = rng.random()
         if rr < 0.15 and not first:
@@ -620,10 +636,11 @@ def c11(run):
             text, digits, dotpos = gen_poetic_line(rng)
             if not digits and dotpos is None:
                 continue
+            stray = 'stray' in digits
             var = rng.choice(['X', 'my heart', 'Tommy'])
             isw = rng.choice(['is', 'are', 'was', 'were', "'s"]) if var != 'my heart' else rng.choice(['is', 'was'])
             src = var + ("'s" if isw == "'s" else ' ' + isw) + ' ' + text + '\nsay ' + var + '\n'
-            cases.append(('num', src, digits, dotpos, text))
+            cases.append(('numtie' if stray else 'num', src, digits, dotpos, text))
         else:
             k = rng.randint(0, 14)
             body = ''.join(rng.choice('abc XYZ,.!?\'- 09éΩ') for _ in range(k))
@@ -656,6 +673,11 @@ def c11(run):
         if r is None:
             continue
         kind, src = c[0], c[1]
+        if kind == 'numtie':
+            run.case(src, True, kind_='stray-suffixes (tied only)')
+            if not r.startswith('ok'):
+                run.fail({'text': src, 'answer': r[:200]}, 'a poetic literal is not parsed as one: ' + r[:60])
+            continue
         if kind == 'num':
             digits, dotpos, text = c[2], c[3], c[4]
             nt = dotpos is not None or "'" in text or '-' in text or 0 in digits or any(w in rock.KEYWORDS for w in text.lower().split())
